@@ -1,4 +1,6 @@
 import Srctools.Proofs.C11
+import Srctools.Proofs.C11Ent
+import Srctools.Gen.Tok
 import Srctools.Gen.Bspfmt
 /-!
 # C11 — every BSP lump writer is the inverse of its reader
@@ -357,6 +359,48 @@ theorem C11_visibility (pvs pas : List Bytes) (data : Bytes)
     (h : visWrite pvs pas = .ok data) : visRead data = .ok (pvs, pas) :=
   vis_roundtrip pvs pas data hp ha h
 
+
+/-! ## (iv) entity lump -/
+
+/-- the tokenizer tables of the current source: NUL is no operator and may occur in a bare string
+(the end marker of the lump), blanks / LF / braces as C01 needs them -/
+theorem C11_gen_ent_tables :
+    C11Ent.nulOK Gen.Tok.tables = true ∧ C01.kvOK Gen.Tok.tables = true ∧ Tok.escOK Gen.Tok.tables = true := by
+  decide
+
+/-- **Entity lump round trip.** `_lmp_read_ents (write_ent_data es)` returns the entities `es`
+(worldspawn first, preceded by the `classname worldspawn` that `VMF()` starts with), every keyvalue
+with its key and value — any characters, escaped by the writer in multi-line mode — and every
+output line with its name and joined value, classified as the reader does (`0x1b` present → output,
+exactly four commas → candidate output, else keyvalue).  Hypotheses (`entsOk`): no key is the single
+NUL character; in worldspawn a key spelling `classname` carries exactly `worldspawn`; the number
+texts of outputs (`'%g' % delay`, `str(times)` — the formatting itself, and with it the precision
+loss of the open finding `ent-output-delay-precision`, is outside the model) contain no quote,
+backslash, CR or LF. -/
+theorem C11_ents (fold : Char → List Char) (spawn : List C11Ent.Line) (others : List (List C11Ent.Line))
+    (h : C11Ent.entsOk spawn others) :
+    C11Ent.entRead Gen.Tok.tables fold (C11Ent.entWrite Gen.Tok.tables (spawn :: others))
+      = .ok (C11Ent.readBack spawn others) :=
+  C11Ent.entRead_entWrite C11_gen_ent_tables.2.2 (C01.kvFacts C11_gen_ent_tables.2.1) fold
+    C11_gen_ent_tables.1 spawn others h
+
+/-- **Outputs with either separator, comma heuristic as coded.** The value of a written output line
+is recognised as an output and split back into target, input, parameter, delay text, times text by
+the rules of `Output.parse` — with the `0x1b` separator whenever no field contains `0x1b`; with the
+comma separator whenever no field contains a comma or `0x1b`. -/
+theorem C11_ents_outputs (o : C11Ent.OutFields) (h : o.fieldsOk) :
+    (C11Ent.rlineOf (.out o)).kind = (if o.commaSep then 2 else 1) ∧
+    C11Ent.parseOut (C11Ent.rlineOf (.out o)).value
+      = some (o.target, o.input, o.params, o.delay, o.times, o.commaSep) :=
+  C11Ent.parseOut_value o h
+
+/-- …and the comma heuristic really is a restriction: a parameter containing a comma makes the
+reader take the comma-separated output for a plain keyvalue. -/
+theorem C11_ents_comma_param_lost :
+    C11Ent.classify (C11Ent.OutFields.value
+      { name := ['O'], target := ['t'], input := ['i'], params := ['a', ',', 'b'], delay := ['0'], times := ['1'], commaSep := true }) = 0 := by
+  decide +kernel
+
 /-! ## non-vacuity -/
 
 instance {ε α : Type} [DecidableEq ε] [DecidableEq α] : DecidableEq (Except ε α) := fun a b =>
@@ -371,6 +415,9 @@ example : pack [.i16, .pad 2, .str 4, .f32, .bool] [.int (-2), .bytes [1, 2, 3, 
 example : pack [.u16] [.int 65536] = .error .range := by decide +kernel
 example : wireOf ['<', '4', 's', ' ', 'H', 'H', ' ', 'i', 'i']
     = some [.str 4, .u16, .u16, .i32, .i32] := by decide +kernel
+example : C11Ent.entsOk [.kv ['c', 'l', 'a', 's', 's', 'n', 'a', 'm', 'e'] C11Ent.worldspawn, .kv ['k', '"'] ['v', '\n', '\\']]
+    [[.out { name := ['O', 'n', 'A'], target := ['t'], input := ['I'], params := [], delay := ['0', '.', '5'], times := ['-', '1'], commaSep := false }]] := by
+  refine ⟨?_, ?_⟩ <;> simp [C11Ent.Line.ok, C11Ent.lineOk, C11Ent.rlineOf, C11Ent.rawOk, C11Ent.nul] <;> decide
 example : rleEncode [1, 0, 0, 0, 2] = [1, 0, 3, 2] := by decide +kernel
 example : (rleEncode (List.replicate 300 0)) = [0, 255, 0, 45] := by decide +kernel
 example : rleDecode [1, 0, 3, 2, 9, 9] 0 (some 40) = .ok [1, 0, 0, 0, 2] := by decide +kernel
